@@ -674,6 +674,10 @@ func mapGet(m, k, v reflect.Value, _ mapReqParams) (vv reflect.Value) {
 	return m.MapIndex(k)
 }
 
+// rvNotAddressable is a no-op here: reflection never marks a map entry
+// or an element of a non-addressable array as addressable.
+func rvNotAddressable(v reflect.Value) reflect.Value { return v }
+
 func mapAddrLoopvarRV(t reflect.Type, k reflect.Kind) (r reflect.Value) {
 	return // reflect.New(t).Elem()
 }
